@@ -547,6 +547,13 @@ def install(interp):
         rec(a[0])
         return out
 
+    def finfo(it, a, k):
+        """machine parameters of a float type as positive symbols (their values are round-off matters)"""
+        from .values import Obj as _Obj
+
+        return _Obj(None, {"eps": Rat.atom("float_eps"), "tiny": Rat.atom("float_tiny"), "max": Rat.atom("float_max"), "min": -Rat.atom("float_max")}, "finfo")
+
+    H["np.finfo"] = finfo
     H["jax.tree_util.tree_leaves"] = tree_leaves
     H["jax.tree.leaves"] = tree_leaves
     H["math.isclose"] = _isclose
